@@ -355,7 +355,59 @@ fn wrap<T>(f: impl FnOnce() -> std::result::Result<T, String>) -> std::result::R
     }
 }
 
+/// The one-dimensional sibling: a series (a polyline over an abscissa) resampled to n evenly spaced values. Every
+/// new knot lies on the original, the result spans it from the first to the last abscissa exactly, and nothing
+/// is NaN. `verts[0]` = [series index, n], op "series".
+fn judge_series(case: &Case, l: &mut Local) {
+    use engeom::func1::Series1;
+    let mk = || serde_json::to_value(case).unwrap();
+    let (si, n) = (case.verts[0][0] as usize, case.verts[0][1] as usize);
+    // clustered knots (several originals between two new values when n is small) and plain ranges whose step is
+    // not exactly representable
+    let table: [(&[f64], &[f64]); 6] = [
+        (&[0.0, 0.3], &[1.0, -2.0]),
+        (&[0.5, 3.7], &[0.0, 4.0]),
+        (&[0.0, 10.0], &[2.0, -1.0]),
+        (&[0.0, 0.1, 0.15, 0.2, 0.22, 0.9, 1.0], &[0.0, 1.0, -1.0, 2.0, 0.5, 3.0, -2.0]),
+        (&[-1.0, -0.98, -0.97, 0.0, 2.5], &[1.0, 5.0, -3.0, 0.0, 1.0]),
+        (&[0.0, 1.0, 1.01, 1.02, 1.03, 1.04, 7.3], &[0.0, 1.0, 0.0, 1.0, 0.0, 1.0, 0.0]),
+    ];
+    let (xs, ys) = table[si % table.len()];
+    let s = match Series1::try_new(xs.to_vec(), ys.to_vec()) {
+        Ok(s) => s,
+        Err(_) => return,
+    };
+    let f = |x: f64| -> f64 {
+        let k = (0..xs.len() - 1).rev().find(|k| xs[*k] <= x).unwrap_or(0);
+        let t = (x - xs[k]) / (xs[k + 1] - xs[k]);
+        ys[k] + (ys[k + 1] - ys[k]) * t
+    };
+    l.eval();
+    l.bucket("series resampled to evenly spaced abscissae");
+    match guarded(|| s.resampled_n(n)) {
+        Ok(r) => {
+            let rx = r.x.to_vec();
+            // (the last abscissa may fall an ulp short of the end; it must not fall beyond it, where the series is undefined)
+            let span = xs[xs.len() - 1] - xs[0];
+            let spans = rx.len() == n && rx[0] == xs[0] && rx[n - 1] <= xs[xs.len() - 1] && xs[xs.len() - 1] - rx[n - 1] <= 1e-12 * span;
+            let finite = r.y.iter().all(|y| y.is_finite());
+            let step = (xs[xs.len() - 1] - xs[0]) / (n as f64 - 1.0);
+            let even = rx.windows(2).all(|w| (w[1] - w[0] - step).abs() <= 1e-9 * (1.0 + step));
+            let worst = rx.iter().zip(r.y.iter()).map(|(x, y)| (y - f(*x)).abs()).fold(0.0, f64::max);
+            l.outcome(hash_of(&(si, n.min(40), 17u8)));
+            l.check("series resampling: every new knot lies on the original, the result spans it exactly and holds no NaN", "", spans && finite && even && worst <= 1e-9, mk, || format!("series {} n {}: spans {} finite {} evenly spaced {} worst deviation {:e}; last x {:?} y {:?}", si, n, spans, finite, even, worst, rx.last(), r.y.last()));
+        }
+        Err(e) => {
+            l.check("series resampling: every new knot lies on the original, the result spans it exactly and holds no NaN", "panic", false, mk, || e.clone());
+        }
+    }
+}
+
 pub fn judge(case: &Case, l: &mut Local) {
+    if case.op == "series" {
+        judge_series(case, l);
+        return;
+    }
     let tol = if case.ctol < 0.0 { 0.0 } else if case.ctol > 0.0 { case.ctol * case.scale } else { 1e-9 * case.scale };
     let eps = 1e-9 * case.scale * 3.0;
     let op = case.op.as_str();
@@ -572,6 +624,12 @@ pub fn cases(tier: Tier) -> Vec<Case> {
             out.push(Case { dim: 3, verts: verts.clone(), force_closed: false, scale: 1.0, op: op.into(), param, nudge: 0.0, ctol: 0.0, derived: 2 });
         }
     }
+    // series resampling: six series x every count from 2 to 200
+    for si in 0..6 {
+        for n in 2..=200 {
+            out.push(Case { dim: 1, verts: vec![vec![si, n]], force_closed: false, scale: 1.0, op: "series".into(), param: 0.0, nudge: 0.0, ctol: 0.0, derived: 0 });
+        }
+    }
     // RDP on sequences with repeated points (the lattice sequences above never repeat consecutively)
     for s in gen::seqs(4, 2, 4) {
         for rep in 0..s.len() {
@@ -601,7 +659,7 @@ pub fn run(tier: Tier) -> i32 {
     let mut cx = Ctx::new("C05", tier, "exploration");
     cx.rule = "every vertex sequence over the 3x3 / 3x3x3 lattice up to the length bound x {open, force-closed} x scales straddling one unit of total length x the request menu (counts, spacings, max spacings, simplify/RDP tolerances, gap maxima); reference model: arc-length point function by linear scan and brute-force segment distance. distinct = distinct source curves".into();
     cx.bounds = json!({"seq_len_2d": tier.pick(4, 5), "seq_len_3d": 3, "scales": [1e-3, 0.25, 1.0, 7.3, 1e3], "requests": requests().iter().map(|(o, p)| format!("{}:{}", o, p)).collect::<Vec<_>>()});
-    cx.require(&["simple source", "self-touching source", "closed source", "source closed only within the tolerance", "open source", "3D source", "total length below one unit", "total length above one unit", "count", "spacing", "maxspacing", "simplify", "rdp", "fillgaps", "curve tolerance exactly zero", "coarse curve tolerance, finer simplification", "source that is itself a derived curve"]);
+    cx.require(&["simple source", "self-touching source", "closed source", "source closed only within the tolerance", "open source", "3D source", "total length below one unit", "total length above one unit", "count", "spacing", "maxspacing", "simplify", "rdp", "fillgaps", "curve tolerance exactly zero", "coarse curve tolerance, finer simplification", "source that is itself a derived curve", "series resampled to evenly spaced abscissae"]);
     cx.assume("closed curves: requests that cannot leave three distinct positions may be rejected with Err (gray)");
     cx.assume("resampling clauses are judged on simple sources only (no two non-adjacent edges touch, no fold-back): on a self-overlapping polyline samples coincide and are merged, so span and spacing are not well defined; simplify, RDP and gap filling are judged on every source");
     let cs = cases(tier);
